@@ -50,7 +50,7 @@ def h_order(ctx, cfg):
     auto = sym.flip('auto')
     ann_name = spec.names[sym.pick(nparams, 'ann')] if sym.flip('hasann') else None
     n = sym.pick(nparams + 2, 'n')
-    kws = tuple(nm for nm in list(spec.names) + [FOREIGN_NAME] if sym.flip('kw'))
+    kws = tuple(nm for nm in list(spec.names) + ([FOREIGN_NAME] if cfg.get('foreign_kw', True) else []) if sym.flip('kw'))
     V = sym.sym_val('V')
     avals = [sym.sym_val('av') for _ in range(n)]
     kvals = dict((nm, sym.sym_val('kv')) for nm in kws)
@@ -67,7 +67,7 @@ def h_order(ctx, cfg):
         ctx.case('order %r apps=%s call n=%d kw={%s}' % (
             spec, ' '.join('%s(%s)' % (k, ','.join(a) if isinstance(a, tuple) else (ann_name if a else ''))
                            for k, a in apps), n, ','.join(kws)), nontrivial=False)
-    if len(apps) < 2:
+    if len(apps) < 2 or len(apps) > cfg.get('max_apps', 4):
         return
     values = dict((nm, str(100 + i)) for i, nm in enumerate(spec.names))
     results = []
@@ -248,8 +248,8 @@ def h_history(ctx, cfg):
 def plan(tier):
     if tier == 'quick':
         return [
-            dict(name='order-K2', fn='h_order', depth=9, budget_s=300, cfg=dict(K=2),
-                 bounds='functions with 1..2 positional-or-keyword parameters (default/star variants) x kwoargs/posoargs selections x autokwoargs x annotate(one parameter) x all permutations x calls n<=len+1, every keyword subset incl. foreign; symbolic values',
+            dict(name='order-K2', fn='h_order', depth=9, budget_s=300, cfg=dict(K=2, max_apps=3, foreign_kw=False),
+                 bounds='functions with 1..2 positional-or-keyword parameters (default/star variants) x kwoargs/posoargs selections x autokwoargs x annotate(one parameter) x all permutations of 2..3 applications x calls n<=len+1, every keyword subset of the parameter names; symbolic values',
                  min_nontrivial=300, must_reach=['same-signature-in-any-order', 'same-result-in-any-order',
                                                  'annotate-visible-through-translators']),
             dict(name='history-L3', fn='h_history', depth=8, budget_s=300, cfg=dict(L=3),
